@@ -6,7 +6,7 @@ from . import cryptgen as G
 
 ID = "C12"
 SRC_FACTS = ["crypt_fn_secret", "crypt_key_ciphertext", "crypt_new_key", "marshal_null_words", "marshal_quote_words",
-             "envelope_magic", "envelope_version", "envelope_min_len"]
+             "marshal_block_prefixes", "envelope_magic", "envelope_version", "envelope_min_len"]
 COQ_SAMPLE = 60
 BATCH = 200
 RULE = ("regression corpus; line-break family (non-secret literal / folded block scalars and secrets in block / flow "
@@ -19,7 +19,13 @@ RULE = ("regression corpus; line-break family (non-secret literal / folded block
         "style and every typed scalar beside a secret; random documents (block/flow collections, all scalar styles, "
         "head/line comments on keys, sequence items and scalars, secrets at top level / nested / arrays / provider "
         "inputs); refusal stream (corrupt envelopes, wrong cipher prefix, aliases, non-string keys, non-secret shapes "
-        "of fn::secret); out-of-subset stream (timestamps, !!binary, custom tags: correspondence only).  "
+        "of fn::secret); out-of-subset stream (timestamps, !!binary, custom tags: correspondence and crash only); "
+        "interpolation family (24 well-formed and malformed `${..}` plaintexts, 1-3 per document: the class of C12-interp is "
+        "delimited by the exact number of diagnostics); second random stream with foot comments, line comments after flow "
+        "collections (`k: {..} # c`), comments inside multi-line flow collections, duplicate keys, lines of 90-400 characters, "
+        "roots with imports / unknown top-level keys / values not first; size families: secret text length, length of a "
+        "non-secret scalar, number of secrets at 2^k-1, 2^k, 2^k+1 (quick: 16 KiB / 1 Ki secrets, thorough: 128 KiB / 16 Ki).  "
+        "A fatal crash or hang of the rewrite is a failing case (outcome `crash`, the input tree fetched by a second process).  "
         "non-trivial = at least one secret rewritten or the rewrite refused; distinct by document text, op, cipher")
 ASSUMPTIONS = ["the yaml.v3 node tree of a text (kind, resolved tag, value, comments, order, flow/block) is what "
                "yaml.v3 itself reports for it; yaml.v3's scanner/emitter is exercised, not modelled",
@@ -27,7 +33,14 @@ ASSUMPTIONS = ["the yaml.v3 node tree of a text (kind, resolved tag, value, comm
                "aliases; an empty null carrying a line comment on its key (`k: # c`) is kept out of the generated "
                "documents: it is re-emitted as `k: null # c`, the comment then belongs to the value",
                "scalar presentation style and the spelling of null are not part of the compared content (MarshalYAML "
-               "re-quotes number-like strings and rewrites an empty null to `null`)"]
+               "re-quotes number-like strings and rewrites an empty null to `null`)",
+               "foot comments are outside the property's stated subset (head/line comments) but generated: yaml.v3 itself "
+               "(parse, emit, parse) re-attaches the foot comment of a key whose value is a block collection to the last key "
+               "inside that collection and drops the trailing line feed of a comment separated from its node by a blank line; "
+               "documents with such a comment (Corr/C12.v unstable_trivia, counted in the distribution) are judged by the tree "
+               "without foot comments plus the sequence of all comments and scalars in textual order, instead of node-by-node",
+               "valid document (for the clause 'the rewrite of a valid document succeeds') = eval.LoadYAMLBytes reports no "
+               "diagnostic for the input and, for decryption, every ciphertext is an envelope the case's decrypter opens"]
 TRUSTED = ["Python YAML renderer (lib/verif/props/cryptgen.py) only shapes inputs: the input tree is read back with "
            "yaml.v3 on the implementation side; Python base64/CRC only build ciphertext inputs"]
 
@@ -50,6 +63,14 @@ CORPUS = [
     ("enc", "values:\n  a: {}\n  b: []\n  c: {k: }\n  d:\n  s: {fn::secret: x}\n"),
     ("enc", "values:\n  a:\n  - x\n  - fn::secret: y\n"),
     ("enc", "values:\n  s:\n    fn::secret: " + "word " * 40 + "\n  t: " + "w " * 100 + "\n"),
+    # trivia and shapes added after the audit: foot comments, comments inside / after flow collections, roots with
+    # imports and unknown keys, duplicate keys
+    ("enc", "values:\n  a:\n    - x\n    # foot of x\n\n    - fn::secret: y # lc\n    # foot of secret\n\n  b: 1\n  # foot of b\n\n# foot of doc\n"),
+    ("enc", "values:\n  f: {a: 1, s: {fn::secret: x}} # after flow map\n  g: [1, {fn::secret: y}] # after flow seq\n  h: {} # empty\n"),
+    ("enc", "values:\n  f: [\n    a, # first\n    {fn::secret: x}, # the secret\n    b\n    ] # closing\n  m: {\n    k: v, # kc\n    s: {fn::secret: y}\n    }\n"),
+    ("enc", "# top\nimports:\n  - base # why\n  - other: {merge: false}\n# between\nvalues:\n  s: {fn::secret: x}\nextra:\n  t: {fn::secret: y}\n"),
+    ("enc", "values:\n  a: 1\n  a: {fn::secret: x}\n  o: {k: 1, k: 2, k: {fn::secret: y}}\n"),
+    ("enc", "values:\n  s: {fn::secret: x}\n"),
     # out of the subset: correspondence only
     ("enc", "values:\n  d: 2001-01-01\n  s: {fn::secret: x}\n"),
     ("enc", "values:\n  d: !foo bar\n  m: !mytag {a: 1}\n  s: {fn::secret: x}\n"),
@@ -58,6 +79,11 @@ CORPUS = [
     ("enc", "values:\n  1: a\n  true: b\n"),
     ("enc", "values:\n  ? [a]\n  : b\n"),
 ]
+
+
+INTERP_TEXTS = ["${x}", "${a.b}", "pre ${a.b} post", "a${b}${c}", "${a.b[0][\"k\"]}", "${}", "${a", "${", "${a.}", "${a[}", "${a[0}",
+                "${a[\"k}", "x ${a} ${", "${ a }", "${a}}", "$${a} ${b}", "${a.b.}", "${[0]}", "${a[-1]}", "${a[x]}", "${\"k\"}",
+                "${a..b}", "é${é}", "${a}\n${b"]
 
 
 def doc_with(node_builder, position, rng):
@@ -95,6 +121,8 @@ def gen(rng, tier):
 
     for op, text in CORPUS:
         add(op, text, fam="corpus")
+    add("dec", "values:\n  f: [\n    a, # first\n    {fn::secret: {ciphertext: %s}} # the secret\n    ]\n  g: {fn::secret: {ciphertext: %s}} # after\n"
+        % (G.envelope(G.toy_encrypt(b"x", 0x5A, 0)), G.envelope(G.toy_encrypt(b"y # z", 0x5A, 0))), fam="corpus")
 
     # --- exhaustive small family: secret text x style x position ---------------------------------------------
     k = 0
@@ -118,6 +146,18 @@ def gen(rng, tier):
                         return G.Map([{"key": G.Sc("fn::secret", "plain"), "val": inner,
                                        "head": None if in_flow else "hc"}], flow=in_flow)
                     add("dec", G.to_text(doc_with(ciph, pos, rng)), key, pad, "family-dec")
+
+    # --- plaintexts with (well-formed and malformed) interpolations, one / two / three per document: the class of the
+    #     known finding C12-interp is delimited by the exact number of diagnostics (Corr/C12.v known_interp) ----------
+    for i, t in enumerate(INTERP_TEXTS):
+        key, pad = 0x21 + i, i % 3
+        env = G.envelope(G.toy_encrypt(t.encode("utf-8"), key, pad))
+        env2 = G.envelope(G.toy_encrypt(INTERP_TEXTS[(i * 7 + 3) % len(INTERP_TEXTS)].encode("utf-8"), key, pad))
+        ok = G.envelope(G.toy_encrypt(b"fine", key, pad))
+        add("dec", "values:\n  a:\n    fn::secret:\n      ciphertext: %s\n  b: 1\n" % env, key, pad, "interp")
+        add("dec", "values:\n  a: {fn::secret: {ciphertext: %s}}\n  l: [{fn::secret: {ciphertext: %s}}, {fn::secret: {ciphertext: %s}}]\n"
+            % (env, ok, env2), key, pad, "interp")
+        add("enc", "values:\n  a:\n    fn::secret: %s\n  b: {fn::secret: {ciphertext: %s}}\n" % (G.dq(t), env), key, pad, "interp")
 
     # --- alternative spellings of the keys fn::secret / ciphertext and of the text scalar ---------------------------
     for form, text in G.spelled_documents(0x6B, 1, thorough):
@@ -164,6 +204,24 @@ def gen(rng, tier):
         g = G.Gen(r, comments=r.chance(3, 4), ciphers=(op == "dec") or r.chance(1, 5), key=key, pad=pad)
         add(op, G.to_text(g.document(2 + r.below(3)), trailing_newline=r.chance(9, 10)), key, pad, "random")
 
+    # --- random documents with the trivia / shapes the first stream never had: foot comments, line comments after flow
+    #     collections (`k: {..} # c`), comments inside multi-line flow collections, duplicate keys, long lines (> the
+    #     emitter's width of 80), roots that are not just `values:` (imports, unknown top-level keys) -----------------
+    n = 12000 if thorough else 900
+    for i in range(n):
+        r = rng.fork("tdoc%d" % i)
+        op = "enc" if i % 2 == 0 else "dec"
+        key, pad = r.below(256), r.choice([0, 0, 1, 2, 5, 17])
+        g = G.Gen(r, comments=True, ciphers=(op == "dec") or r.chance(1, 5), key=key, pad=pad,
+                  trivia=r.chance(3, 4), dup_keys=r.chance(1, 3), long_lines=r.chance(1, 2), roots=r.chance(1, 2))
+        add(op, G.to_text(g.document(2 + r.below(3)), trailing_newline=r.chance(9, 10)), key, pad, "random-trivia")
+
+    # --- sizes: powers of two +- 1 (secret text length, length of a non-secret scalar, number of secrets) ------------
+    for fam, text, key, pad in size_documents(thorough):
+        add("enc", text, key, pad, fam)
+    for fam, op, text, key, pad in size_cipher_documents(thorough):
+        add(op, text, key, pad, fam)
+
     # --- refusals ------------------------------------------------------------------------------------------------
     for i in range(400 if thorough else 60):
         r = rng.fork("bad%d" % i)
@@ -194,6 +252,67 @@ def gen(rng, tier):
     return cases
 
 
+def sizes(limit):
+    out = []
+    k = 0
+    while (1 << k) <= limit:
+        for n in ((1 << k) - 1, 1 << k, (1 << k) + 1):
+            if 0 <= n <= limit + 1 and n not in out:
+                out.append(n)
+        k += 1
+    return sorted(out)
+
+
+def sized_text(n, kind):
+    """a text of exactly n characters: 'plain' = letters and single spaces (long lines), 'lines' = many short lines,
+    'digits' = a number-like string (must stay a string)"""
+    if kind == "digits":
+        return ("1234567890" * (n // 10 + 1))[:n]
+    if kind == "lines":
+        return ("line of text\n" * (n // 13 + 1))[:n]
+    return ("lorem ipsum dolor sit amet " * (n // 27 + 1))[:n].rstrip(" ").ljust(n, "x")
+
+
+def size_documents(thorough):
+    """plaintext side: (family, text, key, pad)"""
+    lim_text = (1 << 17) if thorough else (1 << 14)
+    for n in sizes(lim_text):
+        for kind in ("plain", "lines", "digits"):
+            if n == 0 and kind != "plain":
+                continue
+            if n > 4097 and kind != "plain" and not thorough:
+                continue
+            t = sized_text(n, kind)
+            yield ("size-secret", "values:\n  s:\n    fn::secret: %s\n  t: after\n" % G.dq(t), 0x41, n % 3)
+            yield ("size-scalar", "values:\n  big: %s # stays\n  s: {fn::secret: x}\n" % G.dq(t), 0x41, 1)
+    lim_count = (1 << 14) if thorough else (1 << 10)
+    for n in sizes(lim_count):
+        body = "".join("  k%d: {fn::secret: p%d}\n" % (i, i) for i in range(n)) or "  none: 0\n"
+        yield ("size-count", "values:\n" + body, 0x41, 1)
+        if n:
+            yield ("size-count", "values:\n  l:\n" + "".join("    - fn::secret: p%d\n" % i for i in range(n)), 0x41, 0)
+
+
+def size_cipher_documents(thorough):
+    """ciphertext side: (family, op, text, key, pad)"""
+    lim_text = (1 << 17) if thorough else (1 << 14)
+    key, pad = 0x41, 2
+    for n in sizes(lim_text):
+        for kind in ("plain", "lines", "digits"):
+            if n == 0 and kind != "plain":
+                continue
+            if n > 4097 and kind != "plain" and not thorough:
+                continue
+            env = G.envelope(G.toy_encrypt(sized_text(n, kind).encode("utf-8"), key, pad))
+            yield ("size-secret", "dec", "values:\n  s:\n    fn::secret:\n      ciphertext: %s\n  t: after\n" % env, key, pad)
+    lim_count = (1 << 14) if thorough else (1 << 10)
+    for n in sizes(lim_count):
+        if n:
+            body = "".join("  k%d: {fn::secret: {ciphertext: %s}}\n"
+                           % (i, G.envelope(G.toy_encrypt(("p%d" % i).encode(), key, pad))) for i in range(n))
+            yield ("size-count", "dec", "values:\n" + body, key, pad)
+
+
 def prepare(c):
     return {"op": c["op"], "src": c["src"], "key": c["key"], "pad": c["pad"]}
 
@@ -209,26 +328,50 @@ def tree_sx(n):
     return "(o %d)" % kind
 
 
-def outcome_sx(res, tree, new_diags, bad):
-    if bad:
+def outcome_sx(o):
+    res = o.get("res")
+    if res == "panic" or "panic" in o:
+        return "(err panic)"
+    if "out_err" in o or (res == "ok" and "out" not in o):
         return "bad"
     if res == "ok":
-        return "(ok %s %d)" % (tree_sx(tree), new_diags)
+        return "(ok %s %d %d)" % (tree_sx(o["out"]), o.get("new_secret_diags", 0), o.get("new_other_diags", 0))
     if res in ("diags", "cipher", "crypter"):
         return "(err %s)" % res
     return "bad"
 
 
+CRASH_STATS = {"rewrite-crashed": 0, "loader-crashed": 0}
+
+
+def crash_followup(c, o):
+    """The rewrite killed the implementation process (fatal stack overflow) or hung.  Ask a fresh process for the node
+    tree and the load diagnostics of the input alone (op "tree": yaml.v3 + eval.LoadYAMLBytes, no rewrite).  If that
+    answers, the text is a document and the death belongs to EncryptSecrets / DecryptSecrets: outcome `crash`, a
+    failure of the property on this input.  If reading the input dies as well, the loader is at fault (C07's subject):
+    the case stays skipped and is counted."""
+    t = C.run_impl(ID, [{"op": "tree", "src": c["src"], "key": c["key"], "pad": c["pad"], "id": 0}], batch=1, timeout=60)[0]
+    if "crash" in t or "panic" in t:
+        CRASH_STATS["loader-crashed"] += 1
+        return None
+    if "in" not in t:
+        return None
+    CRASH_STATS["rewrite-crashed"] += 1
+    o["crash_followup"] = {"in_diags": t.get("in_diags", 0)}
+    return "(c12 %s %d %d %d %s crash)" % ("t" if c["op"] == "enc" else "f", c["key"], c["pad"], t.get("in_diags", 0),
+                                            tree_sx(t["in"]))
+
+
 def line(c, o):
     if "crash" in o:
-        return None
+        return crash_followup(c, o)
     if "in" not in o:
+        if "panic" in o:
+            # a panic outside the rewrite itself (yaml.v3 or the loader on the input): treated like a dead process
+            return crash_followup(c, o)
         return None          # the text is not one YAML document for yaml.v3: nothing to rewrite
-    if "panic" in o:
-        out = "(err panic)"
-    else:
-        out = outcome_sx(o.get("res"), o.get("out"), o.get("new_diags", 0), "out_err" in o or (o.get("res") == "ok" and "out" not in o))
-    return "(c12 %s %d %d %s %s)" % ("t" if c["op"] == "enc" else "f", c["key"], c["pad"], tree_sx(o["in"]), out)
+    return "(c12 %s %d %d %d %s %s)" % ("t" if c["op"] == "enc" else "f", c["key"], c["pad"], o.get("in_diags", 0),
+                                        tree_sx(o["in"]), outcome_sx(o))
 
 
 def shrink(c):
@@ -246,17 +389,58 @@ def describe(c):
             "text": bytes.fromhex(c["src"]).decode("utf-8", "replace")[:400]}
 
 
+CORE_TAGS = {b"!!null".hex(), b"!!bool".hex(), b"!!int".hex(), b"!!float".hex(), b"!!str".hex()}
+FN_SECRET_HEX = b"fn::secret".hex()
+
+
+def py_std_tree(n):
+    """Model/YamlTree.v std_tree on the projected tree (only used to COUNT the escape hatches in the evidence)"""
+    kind, tag, style, val, h, l, f, kids = n
+    if kind == 8:
+        return tag in CORE_TAGS
+    if kind in (2, 4) and (kind == 2 or len(kids) % 2 == 0):
+        return all(py_std_tree(k) for k in kids)
+    return False
+
+
+def py_unstable_trivia(n):
+    """Corr/C12.v unstable_trivia (count only): any foot comment, any comment that ends in / contains an empty line"""
+    kind, tag, style, val, h, l, f, kids = n
+    if f or any(b.endswith(b"\n") or b"\n\n" in b for b in (bytes.fromhex(x) for x in (h, l, f))):
+        return True
+    return any(py_unstable_trivia(k) for k in kids)
+
+
 def distribution(cases, r):
     d = {}
-    for c, o in zip(cases, r["obs"]):
-        if "in" not in o:
+    esc = {"ESCAPE:skipped:not-one-yaml-document": 0, "ESCAPE:skipped:loader-dies-on-input": 0,
+           "ESCAPE:outside:not-in-accepted-subset(correspondence+crash only)": 0,
+           "ESCAPE:outside:foot-comments-yaml.v3-reattaches(weak projection)": 0,
+           "ESCAPE:excused:known-C12-interp": len(r.get("spec_fail_known", [])),
+           "JUDGED:fatal-crash-or-hang-as-failure": 0}
+    lines = r.get("lines", {})
+    for i, (c, o) in enumerate(zip(cases, r["obs"])):
+        if "crash" in o:
+            k = "CRASH"
+            if i in lines:
+                esc["JUDGED:fatal-crash-or-hang-as-failure"] += 1
+            else:
+                esc["ESCAPE:skipped:loader-dies-on-input"] += 1
+        elif "in" not in o:
             k = "unreadable-input"
-        elif "panic" in o:
-            k = "panic"
+            esc["ESCAPE:skipped:not-one-yaml-document"] += 1
+        elif "panic" in o or o.get("res") == "panic":
+            k = "PANIC"
         else:
             k = o.get("res", "?")
+        if "in" in o:
+            if not py_std_tree(o["in"]):
+                esc["ESCAPE:outside:not-in-accepted-subset(correspondence+crash only)"] += 1
+            elif py_unstable_trivia(o["in"]):
+                esc["ESCAPE:outside:foot-comments-yaml.v3-reattaches(weak projection)"] += 1
         k = "%s:%s:%s" % (c.get("fam", ""), c["op"], k)
         d[k] = d.get(k, 0) + 1
+    d.update(esc)
     return d
 
 
